@@ -94,6 +94,10 @@ def cases(ctx):
     # fixed programs for the file layout: a first file that ends in a final / dynamic / always part, a second file that starts with rules
     for txt in ['#program always.\n{ a }.\n#program dynamic.\nb :- \'a.\n', '#program initial.\n{ a; b }.\n#program always.\nc :- a.\n', '#program dynamic.\n{ a }.\n']:
         out.append({'text': txt, 'mode': 'two-files-base', 'args': ['--imax=3', '--istop=unknown', '0']})
+    # ... and a first file that ends in the initial / always / dynamic part itself, with and without temporal formulas in rule heads (whose auxiliary rules are emitted in a part of their own)
+    for txt in ['#program always.\n{ a }.\n#program initial.\n&tel { > c | b }.\n', '#program always.\n{ a }.\n#program initial.\nb :- not a.\n', '&tel { >* (a | b) }.\n',
+                '#program initial.\n{ a }.\n#program always.\n&tel { >: c | b } :- a.\n', '#program always.\n{ a }.\n&tel { > b } :- a.\n#program dynamic.\nc :- \'a.\n']:
+        out.append({'text': txt, 'mode': 'two-files-base', 'first_tail': '', 'args': ['--imax=3', '--istop=unknown', '0']})
     return out
 
 
@@ -116,7 +120,7 @@ def one(ctx, c, tmp):
     elif c['mode'] == 'two-files-base':
         # first file ends inside a final part; the second file starts with rules before any #program line: they belong to
         # the initial part (every file starts in part initial/base).  Reference: the same program as ONE text.
-        first = c['text'] + '#program final.\n:- &false, a.\n'
+        first = c['text'] + c.get('first_tail', '#program final.\n:- &false, a.\n')
         second = 'zz.\nyy :- not a.\n#program dynamic.\nyy :- \'zz.\n'
         for j, chunk in enumerate([first, second]):
             f = os.path.join(tmp, 'g%d.lp' % j)
